@@ -124,6 +124,21 @@ def consistency(prob, P, sol, rec, bad):
         return
     d = abs(sol.objective_value - want)
     scale = max(1.0, abs(want), 1e-6 * t.mag)
+    if d > 1e-7 * scale:
+        # is the objective computable to that accuracy at this point at all?  The reference itself is re-evaluated with every
+        # coordinate moved by about one unit in the last place (x (1 +- 2^-50)): where that alone moves the value by more than a
+        # tenth of the tolerance (a diverged iterate of size 1e10 under an exponential: cancellation inside the exponent), no
+        # evaluation order is "the" value and the comparison is not made
+        spread = 0.0
+        for sg in (1.0, -1.0):
+            try:
+                w2, _ = R.ref_value(D, prob["objective"], {k_: v_ * (1.0 + sg * 2.0 ** -50) for k_, v_ in pt.items()})
+                spread = max(spread, abs(w2 - want)) if math.isfinite(w2) else float("inf")
+            except Exception:
+                spread = float("inf")
+        if spread > 0.1 * 1e-7 * scale:
+            rec.noncomp["objective-ill-conditioned-at-returned-point"] += 1
+            return
     rec.disc("objective", d / scale)
     if d > 1e-7 * scale:
         what = "objective-value-inconsistent"
